@@ -1,11 +1,11 @@
-\* generation: every transition over the scripted tree T3 with one observer and one restart, printed once
+\* generation: every transition over the scripted tree T4 (4 producers) with one observer and one restart, printed once
 SPECIFICATION Spec
 CONSTANTS
-  N = 3
+  N = 4
   Byz <- NoByz
   Nodes <- Obs1
-  Blk0 <- T3
-  MaxBlocks = 9
+  Blk0 <- T4
+  MaxBlocks = 11
   MaxRestarts = 1
   ByzMode = "branch"
   ByzRanges <- R123
